@@ -706,7 +706,7 @@ static StepResult do_op(V *roots, const std::vector<std::string> &t, std::string
         vivify(roots, l)->Reset();
     } else if (op == "cmp" && t.size() == 2 && parse_loc(t[1], l)) {
         vivify(roots, l)->Compress();
-    } else if ((op == "grp" || op == "grpfix") && t.size() == 4 && parse_loc(t[2], s)) {
+    } else if ((op == "grp") && t.size() == 4 && parse_loc(t[2], s)) {
         const unsigned        d = (unsigned)strtoul(t[1].c_str(), nullptr, 10) & 3;
         std::vector<uint64_t> k;
         if (!parse_units(t[3], k)) return StepResult{false, false};
